@@ -1,4 +1,5 @@
 mod c09;
+mod c13;
 mod c16;
 mod recdest;
 mod rng;
@@ -34,6 +35,7 @@ fn main() {
     };
     match (args[1].as_str(), args[2].as_str()) {
         ("gen", "C16") => c16::generate(seed, &tier, &mut out),
+        ("gen", "C13") => c13::generate(seed, &tier, &mut out),
         ("gen", "C09") => c09::generate("C09", seed, &tier, &mut out),
         ("gen", "C10") => c09::generate("C10", seed, &tier, &mut out),
         _ => usage(),
